@@ -355,6 +355,9 @@ class EPoll(BasePoller):
             self._map[fileno] = fd
         else:
             super().discard(fd)
+            # no interest left: forget the object, as Poll does
+            for key in [k for k, v in self._map.items() if v is fd]:
+                del self._map[key]
 
     def addReader(self, source, fd):
         super().addReader(source, fd)
